@@ -94,7 +94,9 @@ def run(pid, tier, seed, work, a, t0):
         if a.only:
             ps = [p for p in ps if p['name'] in a.only.split(',')]
         if tier == 'quick':
-            ps = [p for p in ps if p.get('tier', 'quick') == 'quick']
+            # 'quick_props': a heavy proof that serves several properties runs in the quick tier only for the ones listed (its home property);
+            # for the others it belongs to the thorough tier (every quick check has to stay well below the 15 minutes a check may take)
+            ps = [p for p in ps if p.get('tier', 'quick') == 'quick' and (pid in p['quick_props'] if p.get('quick_props') else True)]
         if ps:
             plan.append((un, ps))
     if not plan:
@@ -107,7 +109,7 @@ def run(pid, tier, seed, work, a, t0):
         builts[un] = b
     # run all proofs of all units in one pool
     from concurrent.futures import ThreadPoolExecutor
-    jobs = int(os.environ.get('VS_JOBS', '12'))
+    jobs = int(os.environ.get('VS_JOBS', '9'))      # proofs in flight; each runs two solver processes (vacuity pass + proof pass)
     with ThreadPoolExecutor(max_workers=jobs) as ex:
         futs = []
         for un, ps in plan:
